@@ -252,41 +252,6 @@ def _shape_case(args):
             if '_ctx' in e:
                 real, nodes, toks = e.pop('_ctx')
                 e['labels'] = [label_of(n.rule) for n in nodes]
-                # region of known finding F19: a ?rule collapsing (possibly through inlined helper rules and further ?rules) to a single *token*
-                # whose span is narrower than what the rule matched (filtered tokens at its ends)
-                from lark import Token as _Tok
-                def _result(n):
-                    """what the node contributes after shaping: ('tok', token) | ('node', raw)"""
-                    r = n.rule
-                    if r.options.expand1 and not r.alias:
-                        ks = _kids(n)
-                        if len(ks) == 1:
-                            return ks[0]
-                    return ('node', n)
-                def _kids(n):
-                    r = n.rule
-                    out = []
-                    for c, s_ in zip(n.children, r.expansion):
-                        if isinstance(c, _Tok):
-                            if r.options.keep_all_tokens or not s_.filter_out:
-                                out.append(('tok', c))
-                        elif s_.name.startswith('_'):
-                            out.extend(_kids(c))
-                        else:
-                            out.append(_result(c))
-                    return out
-                f19 = False
-                for n in nodes:
-                    r = n.rule
-                    if r.options.expand1 and not r.alias:
-                        res_ = _result(n)
-                        f, l = span_of(n)
-                        if res_[0] == 'tok':
-                            if f is not res_[1] or l is not res_[1]:
-                                f19 = True
-                        elif mp and r.options.empty_indices and sum(1 for b_ in r.options.empty_indices if b_) == 1 and not _kids(n) and f is not None:
-                            f19 = True      # ... or to a single None placeholder although the rule matched (filtered) tokens
-                e['f19_region'] = f19
                 e['toks'] = [[t.type, t.value if not isinstance(t.value, bytes) else t.value.decode('latin-1'), t.start_pos, t.end_pos, t.line, t.column, t.end_line, t.end_column] for t in toks]
                 spans = []
                 for n in nodes:
@@ -322,11 +287,12 @@ def model_spans(v, spans, out):
     return out
 
 
-def shape_stream(ctx, salt, n_quick, n_thorough, ntexts=4, newlines=False):
+def shape_stream(ctx, salt, n_quick, n_thorough, ntexts=4, newlines=False, positions=False, corpus=()):
     from common import pmap, run_driver_parallel, tier_scale
     rng = random.Random(ctx['seed'] * 1000003 + salt)
     N = tier_scale(ctx['tier'], n_quick, n_thorough) * (3 if ctx['deepen'] else 1)
-    jobs = [(gen_grammar(rng, newlines), rng.randrange(1 << 30), ntexts, newlines) for _ in range(N)]
+    jobs = [(g, k, ntexts, newlines) for g in corpus for k in range(4)]      # hand-written shapes first (4 option draws each)
+    jobs += [(gen_grammar(rng, newlines), rng.randrange(1 << 30), ntexts, newlines) for _ in range(N)]
     outs = pmap(_shape_case, jobs, chunksize=2)
     cases, where = [], []
     for ji, (st, rec) in enumerate(outs):
@@ -339,4 +305,11 @@ def shape_stream(ctx, salt, n_quick, n_thorough, ntexts=4, newlines=False):
     model = run_driver_parallel(cases, timeout=900)
     for (ji, ri, ei), m in zip(where, model):
         outs[ji][1]['runs'][ri]['engines'][ei]['model'] = m
+    if positions:
+        # the Lean model of PropagatePositions (Positions.lean) on the same derivations, tokens replaced by their [start_pos, end_pos)
+        pcases = [{'op': 'positions', 'forest': c['forest'], 'spans': [[t[2], t[3]] for t in outs[ji][1]['runs'][ri]['engines'][ei]['toks']]}
+                  for c, (ji, ri, ei) in zip(cases, where)]
+        pmodel = run_driver_parallel(pcases, timeout=900)
+        for (ji, ri, ei), m in zip(where, pmodel):
+            outs[ji][1]['runs'][ri]['engines'][ei]['pos_model'] = m
     return jobs, outs
